@@ -127,6 +127,14 @@ CHECKS["C14"] = dict(
     note="Trusted: vsched virtual clock (early-timer deviations off); polling transport only (websocket / during-upgrade need the duplex rig of C07). Duplicated pongs and link latency are recorded as observations, not verdicts.",
     design="3/C14")
 
+CHECKS["C01"] = dict(
+    engine="vsched",
+    category="model_checking",
+    technique="stateless model checking of the real client/server pair under a controlled scheduler (deviation-bounded DFS with happens-before caching) plus an exhaustive shape x boundary-size x transport x direction x recovery matrix over real loopback I/O",
+    text="Schedules: real sio.Manager(s) and sio.Server joined by an in-process polling link; 2 emitter threads per direction (plus a namespace broadcaster with 2 clients), 7 argument shapes (none, int, unicode string, struct with Binary, map with Binary leaf, two Binary args incl. an empty one, trailing string) on event names of which one is a prefix of the other, plus events nobody listens to, recovery off and on; explored to the deviation bound; oracle: the multiset of rendered (event, arguments) seen by each side's handlers equals the emitted one (nothing lost, duplicated, altered or given to another event's handler). Matrix (companion binary, plain build, real HTTP/WebSocket on loopback): 10 argument shapes (nested slices, pointers, 0-4 attachments) x total sizes {0, 1, 125, 126, 32767..32769, 65535..65537, MaxBufferSize-64, MaxBufferSize} x {polling, websocket, polling->websocket after UpgradeDone} x both directions x recovery off/on, and 3-client broadcasts; one event at a time followed by a barrier event, digest comparison.",
+    note="Trusted: vsched semantics; in-process link for the schedule part; the matrix runs in real time (60 s deadlines are caps, not verdicts; 'lost' is judged 15 s after the barrier event arrived). Known finding: an event that arrives before the server's asynchronous connection handler registered its handlers is dropped. Sizes between the boundary values, 16 emitters and schedules over a real WebSocket are not covered.",
+    design="3/C01")
+
 NOT_APPLICABLE = {
 }
 
